@@ -338,6 +338,61 @@ def template_stream(ctx):
                 grp = [("optimized", {}, t, {"x": xv}), ("unoptimized", {"optimized": False}, t, {"x": xv}),
                        ("constant-lifted", {}, "{{ " + cx.replace("@", "kk") + " }}", {"x": xv, "kk": kk})]
                 out.append(("C08:constant-text-in-operator-context:" + cx, grp))
+    # constants that have NO text: ints beyond the int/str conversion limit, complex numbers with non-finite parts (only
+    # contexts that keep the value small enough to compute: no powers)
+    notext = ["10 ** 5000", "2 ** 20000", "-(10 ** 4400)", "10 ** 4299", "10 ** 4300", "(-1) ** 0.5", "(-1) ** 0.5 * 1e308 * 10", "1e308 * 10 * ((-1) ** 0.5)", "((-1) ** 0.5) * (1e308 * 10 - 1e308 * 10)",
+              "[10 ** 5000][0]", "(10 ** 5000, 1)[0]", "{'k': 10 ** 5000}['k']", "10 ** 5000 if true else 1", "(10 ** 2500) * (10 ** 2500)", "(-1) ** 0.5 + 1e308 * 10"]
+    safe_ctx = ["(@) < x", "x < (@)", "(@) % 7 + x", "(@) == x", "(@) is number", "[(@), x]|length", "(@) > x and x", "((@) - (@)) + x", "((@) * 0) + x", "x if (@) else 0", "(@)|string|length + x", "(@) != (@) or x"]
+    for c in notext:
+        try:
+            kk = ref.compile_expression(c, undefined_to_none=False)()
+        except Exception:
+            continue
+        for cx in safe_ctx:
+            for xv in (1, 2.5):
+                t = "{{ " + cx.replace("@", c) + " }}"
+                out.append(("C08:constant-without-text:" + cx, [("optimized", {}, t, {"x": xv}), ("unoptimized", {"optimized": False}, t, {"x": xv}),
+                                                                ("constant-lifted", {}, "{{ " + cx.replace("@", "kk") + " }}", {"x": xv, "kk": kk})]))
+        for form in ("{%% set v = %s %%}{{ v %% 7 }}", "{%% if %s > x %%}big{%% endif %%}", "{%% for i in [%s] %%}{{ i > x }}{%% endfor %%}"):
+            t = form % c
+            out.append(("C08:constant-without-text:statement", [("optimized", {}, t, {"x": 1}), ("unoptimized", {"optimized": False}, t, {"x": 1})]))
+    # arguments of a foldable filter / test / call given through * and **, and given twice
+    star_shapes = ['@|default("a", boolean=true, **{"boolean": false})', '@|default("a", **{"boolean": true})', '@|default(*["a", true])', '@|default("a", true, boolean=false)',
+                   '@|default(*["a"], **{"default_value": "b"})', '@|string|center(*[5], **{"width": 6})', '@|string|center(**{"width": 6})', '@|string|replace("a", **{"new": "b"})',
+                   '@|string|replace("a", "b", **{"count": 0})', '@|string|replace(*["a", "b", 1], count=2)', '@ is divisibleby(*[2])', '@ is divisibleby(**{"num": 2})', '@ is divisibleby(2, **{"num": 3})',
+                   '@ is sameas(*[@])', '@|string|truncate(3, **{"length": 5})', '@|string|truncate(**{"length": 3, "leeway": 0})', '[@]|join(**{"d": "-"})', '[@]|join("+", **{"d": "-"})',
+                   '@|round(**{"precision": 1})', '@|round(1, **{"precision": 2})', '@|int(**{"default": 7})', '@|int(5, **{"default": 7})', '{"k": @}|dictsort(**{"reverse": true, "by": "value"})',
+                   '{"k": @}|dictsort(true, **{"case_sensitive": false})', '[@]|batch(2, **{"fill_with": 0})|list', '[@]|batch(2, 1, **{"fill_with": 0})|list', '[@]|sum(**{"start": 1})', '[@]|sum(none, 2, **{"start": 1})']
+    for shp in star_shapes:
+        for c, kk in (("none", None), ('"a"', "a"), ("3", 3), ("2.5", 2.5), ("4", 4)):
+            t = "{{ " + shp.replace("@", c) + " }}"
+            out.append(("C08:star-arguments-of-foldable-call", [("optimized", {}, t, {}), ("unoptimized", {"optimized": False}, t, {}), ("constant-lifted", {}, "{{ " + shp.replace("@", "kk") + " }}", {"kk": kk})]))
+    # a constant whose VALUE depends on the escaping mode, folded as part of a container literal (dict value, list / tuple
+    # element, nested) inside a static autoescape block that differs from the environment's default, and outside one
+    modedep = ['[(A|safe), B]|join(",")', '(A|safe) ~ B', 'A ~ (B|safe)', '(A ~ " http://x.y ")|urlize', '{"a": B}|xmlattr', 'A|escape', '(A|e) ~ B', '[A|safe, B]|join', '(A|safe|string) ~ B',
+               '[A, B]|join("<")', '[A, B]|join("<"|safe)', '(A|safe) ~ (B|safe)', '"%s" % (A|safe) ~ B']
+    conts = ['{"k": @}.k', '{"k": @}["k"]', '[@][0]', '(@, 1)[0]', '{"k": [@]}.k[0]', '[@]|first', '{"k": @}|dictsort|first|last', '{"j": 1, "k": @}.k', '[[@]][0][0]', '{"k": {"k": @}}.k.k',
+             '({"k": @}.k) ~ ""', '{"k": @}.k|string', '[@, @]|join("|")', '@']
+    for env_ae in (False, True):
+        for blk in ("true", "false", None):
+            for v in modedep:
+                for cont in conts:
+                    body = "{{ " + cont.replace("@", "(" + v + ")") + " }}"
+                    t = body if blk is None else "{% autoescape " + blk + " %}" + body + "{% endautoescape %}"
+                    lit, lifted = t.replace("A", '"<a>"').replace("B", '"<b>"'), t.replace("A", "ka").replace("B", "kb")
+                    kw = {"autoescape": env_ae}
+                    out.append(("C08:mode-dependent-constant-in-container:" + cont, [("optimized", kw, lit, {}), ("unoptimized", dict(kw, optimized=False), lit, {}),
+                                                                                    ("literals-lifted", kw, lifted, {"ka": "<a>", "kb": "<b>"})]))
+    # ---- probes of known findings (re-observed on every run)
+    for t in ("{% set y = false and (1|nofilter) %}{{ y }}", "{{ true or (1 is notest) }}", "{{ 0 and (x|nofilter) }}", "{{ (1 or 2|nofilter(3))|string }}"):
+        out.append(("C08:unknown-filter-in-folded-short-circuit", [("optimized", {}, t, {"x": 1}), ("unoptimized", {"optimized": False}, t, {"x": 1})]))
+    mac = ('{% set ns = namespace() %}{% autoescape F1 %}{% macro m() %}{{ X|xmlattr }}{% endmacro %}{% set ns.m = m %}{% endautoescape %}'
+           '{% autoescape F2 %}{{ ns.m() }}{% endautoescape %}')
+    for f1, f2 in (("true", "false"), ("false", "true")):
+        for ae in (False, True):
+            t = mac.replace("F1", f1).replace("F2", f2)
+            out.append(("C08:macro-called-outside-its-autoescape-block", [("optimized", {"autoescape": ae}, t.replace("X", '{"a": "<"}'), {}),
+                                                                        ("constant-lifted", {"autoescape": ae}, t.replace("X", "kk"), {"kk": {"a": "<"}})]))
     fins = {"none-to-empty": (lambda x: "" if x is None else x), "wrap": (lambda x: "<%s>" % (x,)), "identity": (lambda x: x)}
     for fname, fin in fins.items():
         for ae in (False, True):
@@ -348,6 +403,13 @@ def template_stream(ctx):
                     grp.append(("constant-lifted", kw, "{{ kk }}", {"kk": v}))
                 out.append(("C08:finalize-order:%s:ae=%d" % (fname, ae), grp))
     return out
+
+
+def srepr(d):
+    try:
+        return repr(d)[:400]
+    except ValueError:          # an int beyond the int/str conversion limit
+        return "{" + ", ".join(k + ": <" + type(v).__name__ + " without text>" for k, v in d.items()) + "}"
 
 
 def run_template_stream(ctx):
@@ -363,7 +425,7 @@ def run_template_stream(ctx):
                 r = ("err", type(ex).__name__)
             res.append((label, r))
         base = res[0]
-        case = {"kind": "template", "signature": sig, "group": [(l, {k: (v if isinstance(v, (bool, int)) else "<function>") for k, v in kw.items()}, t, repr(d)) for l, kw, t, d in grp]}
+        case = {"kind": "template", "signature": sig, "group": [(l, {k: (v if isinstance(v, (bool, int)) else "<function>") for k, v in kw.items()}, t, srepr(d)) for l, kw, t, d in grp]}
         ok = True
         for label, r in res[1:]:
             same = r == base[1] or (r[0] == "err" and base[1][0] == "err")
